@@ -7,7 +7,7 @@ Types are strings: Int Float Str Bool, class names, `T?`, `(A, B)`, `List[T]`.
 Expression nodes: lit var bin not neg sqrt fstr call mcall new fld ife qd none tup lst idx
 Statement nodes:  def deftup asg aug fasg print if for forin while match expr raise handle ret val pass
 """
-import math
+import math, zlib
 
 INT, FLOAT, STR, BOOL = 'Int', 'Float', 'Str', 'Bool'
 PRIMS = (INT, FLOAT, STR, BOOL)
@@ -71,7 +71,13 @@ class Printer:
     """Mamba text of a program. `ren` maps user identifiers to other spellings (C15);
     `parens` = 'full' parenthesises every binary operation (grouping explicit)."""
 
-    def __init__(self, ren=None):
+    def __init__(self, ren=None, layout=None):
+        # layout: None = every block on lines of its own; 'all' = every single-statement block attached to its
+        # header (`def f() -> Int => for i in 0 .. n do`, `_ => print(x)`, `if c then return x`); an int = a
+        # deterministic choice per site
+        self.layout = layout
+        self.site = 0
+        self.noif = False
         self.ren = ren or {}
 
     def n(self, name):
@@ -138,6 +144,27 @@ class Printer:
             s += f" .. {self.e(r['step'], r['step']['k'] == 'neg')}"
         return s
 
+    INLINE_OK = ('print', 'expr', 'val', 'asg', 'aug', 'fasg', 'ret', 'raise', 'pass', 'for', 'forin', 'while', 'if', 'match')
+
+    def attach(self, head, body, ind, no_if=False):
+        """Lines of `head` followed by the block `body`; `ind` = indentation level of the header line.
+        no_if: the header is an if-branch that is followed by its `else`; nothing on that line may be a
+        conditional (it would capture the else). An if that has an else is never attached."""
+        noif = no_if or self.noif
+        st = body[0] if len(body) == 1 else None
+        if self.layout is not None and st is not None and st['k'] in self.INLINE_OK and not (noif and st['k'] in ('if', 'match')) \
+                and not (st['k'] == 'if' and st.get('el') is not None):
+            self.site += 1
+            if self.layout == 'all' or zlib.crc32(f'{self.layout}:{self.site}'.encode()) & 1:
+                prev, self.noif = self.noif, noif
+                lines = self.block(body, ind)
+                self.noif = prev
+                return [head + ' ' + lines[0].lstrip(' ')] + lines[1:]
+        prev, self.noif = self.noif, False
+        lines = self.block(body, ind + 1)
+        self.noif = prev
+        return [head] + lines
+
     def block(self, b, ind):
         out = []
         I = '    ' * ind
@@ -156,7 +183,10 @@ class Printer:
                     out.append(f"{I}def {fin}{self.n(st['n'])}{ann} := {self.e(st['e'], True)}")
             elif k == 'deftup':
                 fin = '' if st['mut'] else 'fin '
-                out.append(f"{I}def {fin}({', '.join(self.n(n) for n in st['ns'])}) := {self.e(st['e'], True)}")
+                def pat(ns):
+                    return '(' + ', '.join(pat(n) if isinstance(n, list) else self.n(n) for n in ns) + ')'
+                ann = f": {self.ty(st['annt'])}" if st.get('annt') else ''
+                out.append(f"{I}def {fin}{pat(st['ns'])}{ann} := {self.e(st['e'], True)}")
             elif k == 'asg':
                 out.append(f"{I}{self.n(st['n'])} := {self.e(st['e'], True)}")
             elif k == 'aug':
@@ -176,25 +206,20 @@ class Printer:
             elif k == 'raise':
                 out.append(f"{I}raise {self.n(st['c'])}(\"{st['msg']}\")")
             elif k == 'if':
-                out.append(f"{I}if {self.e(st['c'], True)} then")
-                out += self.block(st['th'], ind + 1)
+                # a conditional attached to `then` would capture the else of this one
+                out += self.attach(f"{I}if {self.e(st['c'], True)} then", st['th'], ind, no_if=True)
                 if st.get('el') is not None:
-                    out.append(f"{I}else")
-                    out += self.block(st['el'], ind + 1)
+                    out += self.attach(f"{I}else", st['el'], ind, no_if=True)
             elif k == 'for':
-                out.append(f"{I}for {self.n(st['v'])} in {self.rng(st['r'])} do")
-                out += self.block(st['body'], ind + 1)
+                out += self.attach(f"{I}for {self.n(st['v'])} in {self.rng(st['r'])} do", st['body'], ind)
             elif k == 'forin':
-                out.append(f"{I}for {self.n(st['v'])} in {self.e(st['coll'])} do")
-                out += self.block(st['body'], ind + 1)
+                out += self.attach(f"{I}for {self.n(st['v'])} in {self.e(st['coll'])} do", st['body'], ind)
             elif k == 'while':
-                out.append(f"{I}while {self.e(st['c'], True)} do")
-                out += self.block(st['body'], ind + 1)
+                out += self.attach(f"{I}while {self.e(st['c'], True)} do", st['body'], ind)
             elif k == 'match':
                 out.append(f"{I}match {self.e(st['e'], True)}")
                 for pat, body in st['arms']:
-                    out.append(f"{I}    {self.pat(pat)} =>")
-                    out += self.block(body, ind + 2)
+                    out += self.attach(f"{I}    {self.pat(pat)} =>", body, ind + 1)
             elif k == 'handle':
                 head = self.e(st['e'], True)
                 if st.get('bind'):
@@ -203,8 +228,7 @@ class Printer:
                     head = f"def {fin}{self.n(st['bind'])}{ann} := {head}"
                 out.append(f"{I}{head} handle")
                 for cls, var, body in st['arms']:
-                    out.append(f"{I}    {self.n(var)}: {self.n(cls)} =>")
-                    out += self.block(body, ind + 2)
+                    out += self.attach(f"{I}    {self.n(var)}: {self.n(cls)} =>", body, ind + 1)
             else:
                 raise Exception('printer: unknown statement ' + k)
         return out
@@ -236,7 +260,7 @@ class Printer:
         body = f['body']
         if len(body) == 1 and body[0]['k'] in ('val', 'print', 'expr', 'fasg', 'asg', 'raise') and f.get('inline'):
             return [head + ' ' + self.block(body, 0)[0]]
-        return [head] + self.block(body, ind + 1)
+        return self.attach(head, body, ind)
 
     def cls(self, c):
         out = []
@@ -298,8 +322,8 @@ def split_top(s):
     return out
 
 
-def to_mamba(p, ren=None):
-    return Printer(ren).program(p)
+def to_mamba(p, ren=None, layout=None):
+    return Printer(ren, layout if layout is not None else p.get('layout')).program(p)
 
 
 # ---------------------------------------------------------------------------------------------- interpreter
@@ -578,9 +602,15 @@ class Interp:
                 env[st['n']] = self.ev(st['e'], env)
             return None
         if k == 'deftup':
-            v = self.ev(st['e'], env)
-            for n, x in zip(st['ns'], v):
-                env[n] = x
+            def bind(ns, v):
+                if len(ns) != len(v):
+                    raise MRaise('ValueError', ['ValueError', 'Exception'])
+                for n, x in zip(ns, v):
+                    if isinstance(n, list):
+                        bind(n, x)
+                    else:
+                        env[n] = x
+            bind(st['ns'], self.ev(st['e'], env))
             return None
         if k == 'asg':
             env[st['n']] = self.ev(st['e'], env); return None
